@@ -53,7 +53,11 @@ func (w *cwriter) File(preamble string, rs []result) error {
 	sb.WriteString(w.imports)
 	sb.WriteString("\n")
 	sb.WriteString(preamble)
-	sb.WriteString("\nDefinition cases : list case := [\n")
+	sb.WriteString("\n")
+	for _, r := range rs {
+		sb.WriteString(r.pre)
+	}
+	sb.WriteString("Definition cases : list case := [\n")
 	for i, r := range rs {
 		if i > 0 {
 			sb.WriteString(";\n")
